@@ -1,6 +1,131 @@
-"""(M) TLC on the implementation-shaped model spec/PPGEngine.tla."""
+"""(M) TLC on the implementation-shaped model: spec/PPGEngineMC.tla (engine model PPGEngine +
+world + environment), one invariant Inv_<property> per property, the predicates being the very
+operators of PPGProps that the trace monitors evaluate on the real engine.
+
+The result depends on the specification only (not on /repo), so it is cached per specification
+text and configuration; what ties it to the code is the strict conformance pass of bin/check
+(every recorded transition of the real engine is the model's transition)."""
+import hashlib
+import json
 import os
+import re
+import shutil
+import subprocess
+import time
+
+from vlib import SPEC, SCRATCH, REPLAYS, TLA_CP, ToolError, log, spec_hash
+
+INVS = ["C01", "C02", "C03", "C04", "C05", "C06", "C07", "C08", "C09", "C10", "C11", "C12", "C13",
+        "C14", "C16", "C17", "C18", "C20", "H"]
+
+BASE = {
+    "NJobs": "2", "KindSets": "{}", "EdgeSets": "{}", "MaxEval": "2", "MaxFail": "1",
+    "Edits": '{"d", "b", "n", "e"}', "WithAbort": "TRUE", "WithMisuse": "TRUE", "WithFlaky": "TRUE",
+    "Cmps": '{"exact", "nostamp"}', "UsesModes": '{"all", "none"}', "AllOrders": "TRUE",
+}
+
+# name, overrides, exhaustive over the stated constants, timeout s
+QUICK = [
+    ("n2e2", {}, True, 600),
+]
+THOROUGH = [
+    ("n2e3", {"MaxEval": "3"}, True, 1800),
+    ("n3e1", {"NJobs": "3", "MaxEval": "1", "WithFlaky": "FALSE"}, True, 3600),
+    ("n3e2", {"NJobs": "3", "MaxEval": "2", "Edits": '{"d", "b"}', "WithMisuse": "FALSE", "WithFlaky": "FALSE",
+              "Cmps": '{"exact"}', "UsesModes": '{"all"}', "AllOrders": "FALSE", "WithAbort": "FALSE"}, True, 7200),
+]
+
+
+def _cfg_text(consts):
+    lines = ["SPECIFICATION Spec", "CONSTANTS"]
+    for k, v in consts.items():
+        lines.append("  %s = %s" % (k, v))
+    lines.append("INVARIANTS " + " ".join("Inv_" + p for p in INVS))
+    lines.append("CHECK_DEADLOCK FALSE")
+    return "\n".join(lines) + "\n"
+
+
+def _run_one(name, over, exhaustive, timeout, workdir):
+    consts = dict(BASE)
+    consts.update(over)
+    cfg = _cfg_text(consts)
+    key = hashlib.sha256((spec_hash() + cfg).encode()).hexdigest()[:16]
+    cdir = os.path.join(SCRATCH, "mc")
+    os.makedirs(cdir, exist_ok=True)
+    cache = os.path.join(cdir, "%s-%s.json" % (name, key))
+    if os.path.exists(cache) and not os.environ.get("VERIF_NOCACHE"):
+        with open(cache) as f:
+            r = json.load(f)
+        r["cached"] = True
+        return r
+    os.makedirs(workdir, exist_ok=True)
+    cfgp = os.path.join(workdir, "MC_%s.cfg" % name)
+    with open(cfgp, "w") as f:
+        f.write(cfg)
+    md = os.path.join(workdir, "md-" + name)
+    out = os.path.join(workdir, "MC_%s.out" % name)
+    env = dict(os.environ)
+    env["JAVA_TOOL_OPTIONS"] = "-Xss512m"
+    workers = os.environ.get("VERIF_TLC_WORKERS", "12")
+    cmd = ["java", "-XX:+UseParallelGC", "-Xmx16g", "-cp", TLA_CP, "tlc2.TLC", "-workers", workers,
+           "-metadir", md, "-cleanup", "-noGenerateSpecTE", "-continue", "-config", cfgp, "PPGEngineMC.tla"]
+    t0 = time.time()
+    try:
+        with open(out, "w") as lf:
+            p = subprocess.run(cmd, cwd=SPEC, env=env, stdout=lf, stderr=subprocess.STDOUT, timeout=timeout)
+    except subprocess.TimeoutExpired:
+        raise ToolError("TLC model checking timed out: " + name)
+    finally:
+        shutil.rmtree(md, ignore_errors=True)
+    txt = open(out, errors="replace").read()
+    m = re.search(r"(\d+) states generated, (\d+) distinct states found, (\d+) states left on queue", txt)
+    if not m:
+        raise ToolError("TLC model checking failed (%s): %s" % (name, txt[-1500:]))
+    violated = sorted(set(re.findall(r"Invariant Inv_(\w+) is violated", txt)))
+    other_err = [l for l in re.findall(r"^Error: (.*)$", txt, re.M)
+                 if "Invariant" not in l and "behavior up to this point" not in l]
+    if other_err:
+        raise ToolError("TLC error in model %s: %s" % (name, other_err[0][:300]))
+    depth = re.search(r"depth of the complete state graph search is (\d+)", txt)
+    r = {"config": name, "constants": consts, "states_generated": int(m.group(1)),
+         "distinct_states": int(m.group(2)), "left_on_queue": int(m.group(3)),
+         "depth": int(depth.group(1)) if depth else None,
+         "violated_invariants": violated, "exhaustive": bool(exhaustive and int(m.group(3)) == 0),
+         "wall_s": round(time.time() - t0, 1), "cmd": " ".join(cmd[3:]), "cached": False}
+    if violated:
+        os.makedirs(REPLAYS, exist_ok=True)
+        rp = os.path.join(REPLAYS, "model-%s-%s.txt" % (name, key))
+        with open(rp, "w") as f:
+            f.write(txt[:2000000])
+        r["replay"] = rp
+    else:
+        os.remove(out)
+    with open(cache, "w") as f:
+        json.dump(r, f)
+    return r
 
 
 def run(prop, tier, workdir):
-    return {}
+    if prop not in INVS or os.environ.get("VERIF_NOMODEL"):
+        return {}
+    runs = []
+    for name, over, ex, to in (THOROUGH if tier == "thorough" else QUICK):
+        r = _run_one(name, over, ex, to, workdir)
+        log("model %-5s distinct=%d generated=%d depth=%s violated=%s %s" % (
+            name, r["distinct_states"], r["states_generated"], r["depth"], r["violated_invariants"],
+            "(cached)" if r["cached"] else "%.0fs" % r["wall_s"]))
+        runs.append(r)
+    bad = [r for r in runs if prop in r["violated_invariants"]]
+    res = {
+        "invariant": "Inv_%s of spec/PPGEngineMC.tla" % prop,
+        "runs": [{k: r[k] for k in ("config", "constants", "distinct_states", "states_generated", "depth",
+                                    "violated_invariants", "exhaustive", "wall_s", "cached")} for r in runs],
+        "distinct_states": sum(r["distinct_states"] for r in runs),
+        "states_generated": sum(r["states_generated"] for r in runs),
+        "exhaustive": all(r["exhaustive"] for r in runs),
+        "violations": len(bad),
+        "cmd": "; ".join(sorted(set(r["cmd"] for r in runs))),
+    }
+    if bad:
+        res["replay"] = bad[0]["replay"]
+    return res
